@@ -225,6 +225,31 @@ theorem C16_getPoint_any_history (P : Params) (pos0 : Nat → Option V3)
   unfold getPoint
   exact congrFun this g
 
+/-- **The bulk position query** (`update_positions_in_molecules`).  After every operation sequence (same
+hypotheses as `C16_getPoint_any_history`), what the molecules carry after the positions are handed back is, for
+every node the engine knows, the last position given or UNDEFINED after removal — whatever coordinate the molecule
+carried before (supplied coordinates, an earlier hand-back): no stale coordinate survives; nodes the engine does
+not know are untouched. -/
+theorem C16_handback (P : Params) (pos0 : Nat → Option V3)
+    (hinit : ∀ g, (pos0 g).isSome → g < P.n)
+    (ops : List Op) (hb : Proofs.EngineLayout.addsBounded P ops)
+    (gndxOf : Nat × Nat → Option Nat) (old : Nat × Nat → Option V3) :
+    (∀ k g, gndxOf k = some g →
+      EngineLayout.handBack (run P (build P pos0) ops) gndxOf old k = absRun pos0 ops g) ∧
+    (∀ k, gndxOf k = none → EngineLayout.handBack (run P (build P pos0) ops) gndxOf old k = old k) := by
+  refine ⟨fun k g hk => ?_, fun k hk => ?_⟩
+  · have := C16_getPoint_any_history P pos0 hinit ops hb g
+    unfold getPoint at this
+    simp only [EngineLayout.handBack, hk]
+    exact this
+  · simp only [EngineLayout.handBack, hk]
+
+/-- residue 1 carried a supplied coordinate and was removed: the hand-back gives undefined, not the old value -/
+example : EngineLayout.handBack (run exP (build exP exInit) [.remove [1]]) (fun k => if k.1 = 0 then some k.2 else none)
+      (fun _ => some ⟨2, 1, 1⟩) (0, 1) = none ∧
+    EngineLayout.handBack (run exP (build exP exInit) [.remove [1]]) (fun k => if k.1 = 0 then some k.2 else none)
+      (fun _ => some ⟨2, 1, 1⟩) (3, 1) = some ⟨2, 1, 1⟩ := by decide +kernel
+
 /-- a history that is NOT protocol-conforming: residue 1 is added again while positioned, then removed,
 consolidated, and added outside the box -/
 def exOpsAny : List Op :=
